@@ -136,6 +136,7 @@ fn run_generic<S: Inner + 'static>(ctx: &mut Ctx, prop: &str, w: &World, inner: 
     auth.set_make_credentials_with_signature_counter(w.counter_on);
     auth.set_make_credential_id_length(CredentialIdLength::from(w.id_len));
     if let Some(c) = hm_cfg(w.hm) { auth = auth.hmac_secret(c); }
+    if w.id_len % 2 == 0 { auth = auth.transports(vec![webauthn::AuthenticatorTransport::Internal, webauthn::AuthenticatorTransport::Hybrid]); }
     let mut client = Client::new(auth);
     ctx.line(&format!("au.reset {} {} {} {} {}", prop, w.kind.name(), w.counter_on as u8, w.id_len, w.hm.name()), "");
     for p in &w.preload { ctx.line(&format!("au.load {}", passkey_line(p)), ""); }
